@@ -355,12 +355,13 @@ fn fault_case<K: Kern<D>, const D: usize>(cx: &mut Ctx, r: &mut Rng, idx: usize)
                 cx.tr.emit("Faulted", 1, json!({"faults": applied, "classes": classes, "clean": plan.iter().all(|f| matches!(f, Fault::None))}), v, Some(post.clone()), false);
                 // the public maintenance calls of Tds on the faulted state (each on its own copy)
                 if plan.len() == 1 {
-                    for op in ["remove_duplicate_cells", "assign_incident_cells", "is_connected", "star_of_each_vertex", "repair_neighbor_pointers"] {
+                    for op in ["remove_duplicate_cells", "assign_incident_cells", "is_connected", "star_of_each_vertex", "repair_neighbor_pointers", "clear_then_repair_neighbors"] {
                         let relevant = match (op, &plan[0]) {
                             ("remove_duplicate_cells", Fault::DuplicateCell(_) | Fault::None) => true,
                             ("assign_incident_cells", Fault::StaleIncident(_) | Fault::WrongIncident(_) | Fault::None | Fault::MissingCellClean(_)) => true,
                             ("is_connected", Fault::MissingCellClean(_) | Fault::CutOffCell(_) | Fault::None | Fault::GlueVertices(..)) => true,
                             ("star_of_each_vertex", Fault::None | Fault::MissingCellClean(_) | Fault::CutOffCell(_)) => true,
+                            ("clear_then_repair_neighbors", Fault::None) => true,
                             ("repair_neighbor_pointers", Fault::None | Fault::OneWayNeighbor(..) | Fault::WrongMirrorSlot(..) | Fault::DropNeighborBuffer(_) | Fault::MissingCellClean(_)) => true,
                             _ => false,
                         };
@@ -378,6 +379,13 @@ fn fault_case<K: Kern<D>, const D: usize>(cx: &mut Ctx, r: &mut Rng, idx: usize)
                                     Ok(()) => ("Ok".into(), 0, vec![]),
                                     Err(_) => ("Err".into(), -1, vec![]),
                                 },
+                                "clear_then_repair_neighbors" => {
+                                    t2.clear_all_neighbors();
+                                    match delaunay::core::algorithms::incremental_insertion::repair_neighbor_pointers(&mut t2) {
+                                        Ok(n) => ("Ok".into(), n as i64, vec![]),
+                                        Err(_) => ("Err".into(), -1, vec![]),
+                                    }
+                                }
                                 "is_connected" => ("Ok".into(), i64::from(t2.is_connected()), vec![]),
                                 "repair_neighbor_pointers" => match delaunay::core::algorithms::incremental_insertion::repair_neighbor_pointers(&mut t2) {
                                     Ok(n) => ("Ok".into(), n as i64, vec![]),
